@@ -39,6 +39,12 @@ def family(name):
     return None
 
 
+def proof_internal(name):
+    """loop invariants, variants and cut assertions whose clause does not carry a property id (Cnn-...) in its name"""
+    import re
+    return re.search(r"/(loop\d+/(inv-entry|inv-preserved|variant|at-entry)|cut\d+)(:(?!C\d\d-)|$)", name) is not None
+
+
 def build_registry(repo_root, contract_modules):
     from .contract import Registry
     from .source import Repo
@@ -223,6 +229,11 @@ def report(ck, results, select=None, replayer=None, rename=None, also_used=()):
             if known:
                 ck.fail(name, known[0]["key"], known[0]["what"], replay=payload, reproduced=reproduced)
                 ck.ob(name, "known-finding", backend=backend, secs=rec["secs"], clause=rec["clause"], queries=rec["paths"], detail={"model": model})
+            elif not reproduced and proof_internal(name) and (full in lock):
+                # a loop invariant / cut assertion without a property clause in it is part of the PROOF, tied to the shape of the code:
+                # refuted alone it means "the proof needs adjusting", not "the property is broken".  Decided in Check.finish():
+                # a violation if a property clause or a stand-in of this check fails as well, otherwise undecided
+                ck.pending_internal.append((name, what, payload, backend, rec["secs"], rec["clause"], rec["paths"], model))
             elif reproduced or full in lock or family(full) in lock_families:
                 if not reproduced and full not in lock:
                     what += "  [new member of the obligation family %r, every member of which was discharged on the unchanged tree]" % family(full)
